@@ -24,6 +24,7 @@ func fileRec(b []byte, tracks int) Rec {
 
 func init() {
 	register("c08", Def{
+		Debug: true,
 		Rule: "seeded random instance documents (chords/rests, fractions, settings, UTF-8 texts, key changes) x --track N x --program x --instrument, written by the real `crd write` " +
 			"to stdout and with -o; every file produced is a record (raw bytes + the harness reader's event list); distinct = distinct (document, flags)",
 		Gen: func(c *Ctx) []Case {
